@@ -410,6 +410,62 @@ class Spec:
             return dflt
         return self.sim.truth(ref)
 
+    # --- "every controlling node and value source reachable from n evaluates, references are well-kinded"
+    def node_refs(self, n):
+        nd = self.g[n]
+        out = [nd[k] for k in ("impl", "avail", "lock") if nd[k] is not None]
+        k, v = nd["kind"], nd["value"]
+        if k in ("Integer", "Float", "Boolean", "Enumeration", "Command", "String") and v:
+            if v[0] == "node":
+                out.append(v[1])
+            elif v[0] == "pvalue":
+                out += [v[1]] + list(v[2])
+            elif v[0] == "pindex":
+                out += [v[1]] + [e[1] for _, e in v[2] if e[0] == "node"] + ([v[3][1]] if v[3][0] == "node" else [])
+        elif k in ("IntConverter", "Converter"):
+            out += [nd["pvalue"]] + list(nd["vars"])
+        elif k in ("IntSwissKnife", "SwissKnife"):
+            out += list(nd["vars"])
+        return out
+
+    def node_ok(self, n):
+        nd = self.g[n]
+        k, v = nd["kind"], nd["value"]
+        kd = lambda m: self.g[m]["kind"]
+        if k == "Register":
+            return False
+        try:
+            for ref in ("impl", "avail", "lock"):
+                if nd[ref] is not None:
+                    self.sim.truth(nd[ref])
+            if k in ("Integer", "Float"):
+                if v[0] == "pvalue":
+                    return all(kd(m) in NUMERIC for m in [v[1]] + list(v[2]))
+                if v[0] == "pindex":
+                    if kd(v[1]) not in INT_KINDS:
+                        return False
+                    self.sim.num(v[1])
+                    return all(kd(e[1]) in NUMERIC for e in [x for _, x in v[2]] + [v[3]] if e[0] == "node")
+                return v[0] == "slot" or kd(v[1]) in NUMERIC
+            if k in ("Boolean", "Enumeration", "Command"):
+                return v[0] == "slot" or kd(v[1]) in NUMERIC
+            if k == "String":
+                return v[0] == "slot" or kd(v[1]) in STRING_KINDS
+            if k in ("IntConverter", "Converter"):
+                return all(kd(m) in VARKINDS for m in [nd["pvalue"]] + list(nd["vars"]))
+            if k in ("IntSwissKnife", "SwissKnife"):
+                return all(kd(m) in VARKINDS for m in nd["vars"])
+            return True
+        except EvalError:
+            return False
+
+    def evaluable(self, n):
+        if not hasattr(self, "ec"):
+            self.ec = {}
+        if n not in self.ec:
+            self.ec[n] = self.node_ok(n) and all(self.evaluable(m) for m in self.node_refs(n))
+        return self.ec[n]
+
     def readable(self, n):
         if n not in self.rc:
             try:
